@@ -313,16 +313,21 @@ class Gen:
             self.predict(m2, d1, ignore=True)
             self.emit("INSPECT", m=m2)
         elif mode == "C02":
-            d1 = self.make_data(self._reporting(base0, span=r.choice(["day", "week"])))
+            # spans of growing length over the same weeks: one day, the month around it, then whatever was drawn
+            d1 = self.make_data(self._reporting(base0, span="day", obs="present"))
+            dm = self.make_data(self._reporting(base0, span="month" if base0.get("src") != "sample" or base0[
+                "fam"] != "billing" else "partial", obs="present"))
             self.predict(m0, d1, ignore=True)
+            self.predict(m0, dm, ignore=True)
             self.predict(m0, ds[0], ignore=True)
             self.emit("SCRIBBLE_PRED", m=m0)
             self.emit("SCRIBBLE_DATA", d=ds[0])
             self.predict(m0, ds[0], ignore=True)
             doc = self.store(m0)
-            # the same history on a restored object: short span first, then the longer one
+            # the same history on a restored object: short span first, then the longer ones
             m1 = self.load(doc)
             self.predict(m1, d1, ignore=True)
+            self.predict(m1, dm, ignore=True)
             self.predict(m1, ds[0], ignore=True)
         elif mode == "C03":
             self.store(m0)
@@ -490,9 +495,8 @@ class Gen:
                     continue
                 others = [b_ for b_ in self.pool[m["fam"]] if b_ != m["base"]] if m["fam"] in self.pool else []
                 base = r.choice(others) if others else self._new_base(m["fam"])
-                if m["fam"] == "hourly" and bool(base.get("ghi")) != bool(m["base"].get("ghi")):
-                    # a used HourlyModel object keeps the feature set chosen at its first fit (not claimed): same GHI-ness
-                    base = dict(base, ghi=bool(m["base"].get("ghi")))
+                if P.needs_ghi(m["fam"], m["profile"]) and not base.get("ghi"):
+                    base = dict(base, ghi=True)
                     if base.get("src") == "sample":
                         base.pop("src")
                         base["mid"] += 100
